@@ -113,7 +113,10 @@ class ProgGen:
                 self.case.graphs[f"sub{sid}"] = self.body(f"s{sid}", sub_params, rng.randint(1, 5), depth + 1, True)
                 how = self.nested_only or rng.choice(["inline", "nested"])
                 args = [self.pick(ports) for _ in range(arity)]
-                stmts.append(S(nm, how, *args, sid=sid))
+                kw = {}
+                if arity == 2 and not self.allow_ite and rng.random() < 0.4:
+                    kw["pack"] = 1      # both arguments travel as ONE structured (fixed list) parameter, read by projection
+                stmts.append(S(nm, how, *args, sid=sid, **kw))
                 ports.append(nm)
                 nested_results.add(nm)
                 continue
